@@ -403,6 +403,23 @@ MALFORMED = [
 
 
 def judge_seq(ops, out):
+    # every client connection must be accepted and announced: once the running loop has been brought
+    # to quiescence after a connect, a context for that connection exists (or existed)
+    pending, seen, exited = {}, set(), False
+    for o, l in zip(ops, out):
+        if o == "exit":
+            exited = True
+        elif o == "conn 1" and re.match(r"c\d+$", l) and not exited:
+            pending[int(l[1:])] = True
+        elif o == "sync" and not exited and "TIMEOUT" not in l:
+            for m in re.finditer(r"c(\d+):([A-Za-z-])", l):
+                if m.group(2) != "-":
+                    seen.add(int(m.group(1)))
+            miss = sorted(c for c in pending if c not in seen)
+            if miss:
+                return ("connection(s) %s completed before the loop went quiescent but were never accepted: no "
+                        "context, no cb_conn, their bytes never reach cb_msg" % miss[:8])
+            pending = {}
     for l in out:
         if "TIMEOUT" in l:
             return "the event loop did not reach quiescence (hang)"
@@ -527,6 +544,7 @@ def seq_cases(ctx):
         cases += gen_incb([(1, 8, "u", 3), (2, 8, "u", 64), (3, 8, "u", 1)])[::2]
         cases += gen_random(ctx, 1800, 12)
         cases += gen_random(ctx, 300, 33)
+        cases += gen_burst(ctx, 45)
     else:
         cfgs = [(1, 8, "u", 1), (2, 2, "u", 3), (2, 3, "t", 7), (3, 8, "u", 64), (3, 1, "t", 4096)]
         cases += gen_exhaustive(ctx, 2, cfgs)
@@ -534,6 +552,31 @@ def seq_cases(ctx):
         cases += gen_incb([(1, 8, "u", 3), (2, 8, "u", 64), (3, 8, "u", 1), (2, 3, "t", 7), (3, 8, "t", 4096)])
         cases += gen_random(ctx, 60000, 12)
         cases += gen_random(ctx, 12000, 33)
+        cases += gen_burst(ctx, 1500)
+    return cases
+
+
+def gen_burst(ctx, n_cases):
+    """connection bursts: 17..60 clients connect while the loop is parked (or between two syncs of a
+    running loop), so that one read event of the listener finds a long backlog — every one of them
+    must be accepted, announced and served (edge-triggered epoll gives no second event for the
+    listener); then ordinary traffic on some of them."""
+    rng = ctx.rng
+    cases = []
+    for i in range(n_cases):
+        be = 1 + i % 3
+        k = rng.choice([17, 18, 24, 33, 48, 60])
+        hints = 128 if be == 2 else rng.choice([8, 64])
+        s = Sim(rng, be, hints, "u", rng.choice([3, 64, 4096]))
+        if rng.random() < 0.7:
+            s.emit("park")
+            s.parked = True
+        for _ in range(k):
+            s.registration("conn", alloc=True)
+        s.sync()
+        for _ in range(rng.choice([0, 5, 20])):
+            s.step()
+        cases.append(s.finish())
     return cases
 
 
@@ -544,7 +587,7 @@ def main(ctx):
         "part 1 (tie B): every sequence of 2..3 acts over {connect ok/alloc-fail, hand-over, send, peer close, "
         "retain, worker release, shutdown, park, unpark, worker release / retain hosted INSIDE cb_msg / cb_close} each followed by a quiescing sync, on select / poll "
         "(capacity 2) / epoll, AF_UNIX and loopback TCP, then exit; seeded random scenarios of up to 32 "
-        "connections (payload sizes 0..20000, write fragmentation 1..100000, read chunk 1..4096, close order, "
+        "connections and bursts of 17..60 simultaneous connections (one listener event must drain the whole backlog) (payload sizes 0..20000, write fragmentation 1..100000, read chunk 1..4096, close order, "
         "retains released later, accept-time allocation failure, registration failure at poll capacity at accept "
         "time and at hand-over time, batches issued while the loop is parked inside cb_wake or running, contexts "
         "queued at exit, worker acts hosted inside callbacks, exit at a random point); every (hosted act x hosted act x trigger x parked/free x 0..2 retains) history around one retained connection; the reference count seen inside every cb_conn / cb_add_ctx / cb_close / cb_release is compared with the model; malformed stream; corpus. part 2 (tie C): seeded random/PCT "
